@@ -59,6 +59,10 @@ def sb6(facts, rep):
     if q is None or r is None or w is None:
         rep.missing(rule, 'alphabets::RankTransform::{qgrams,rev_qgrams,get_width}', 'not found')
         return
+    # shared private helpers (a common "bits per symbol" function) are analysed in place
+    from . import inline
+    keep = lambda pth: pth.rsplit('::', 1)[-1] in ('qgrams', 'rev_qgrams', 'get_width', 'new', 'get', 'transform')
+    q, r, w = (inline.inlined(facts, x, keep) for x in (q, r, w))
 
     def bits_expr(b):
         for bb in b.reachable(0):
